@@ -17,6 +17,9 @@ THEOREMS = [_P + n for n in [
     "tsd_times", "tsd_window_is_cycle", "tsd_ghost_eq_fold", "tsd_value_eq_fold", "GDict.run_x",
     # TSD value level: partial + the two kernel-checked counterexamples to the full statements
     "tsd_value_delta_partial", "tsd_value_delta_incoherent", "tsd_keyset_incoherent",
+    # ... and the full value-level statement for clean histories (no re-insert after write+erase in one cycle)
+    "tsd_vinv_reachable", "tsd_value_delta_clean_partial", "tsd_vghost_is_cycle_start", "GDictV.run_x",
+    "GDictV.run_keys", "cleanHistory_of_B",
     # tick window
     "window_last_n", "window_evicted", "GWin.run_w",
 ]]
